@@ -42,6 +42,8 @@ CHECKS = {
          "TLA+ acceptor Wrap.tla (design-checked by WrapDesign) validating lexed real renderings at many widths", "6 (C13)"),
  "C15": ("exploration", "ShellWords.tla models shell word lexing (quotes, escapes, operators, active characters), bpaf's directive templates for zsh and bash and the line protocol of fish/elvish; ShellDesign model-checks that bpaf's quoting of every short hostile string lexes back to exactly one inert word; every completion output for revisions 1/7/8/9 (with and without a name) over hostile typed words, help texts, masks, groups and completer values is lexed and judged by TLC against the candidates computed at revision 0 (directives well-formed, data words inert, each candidate and file completer exactly once); a sample of bash outputs is sourced in a sandboxed real bash with stubs and canaries.",
          "TLA+ lexer/template acceptor ShellWords.tla (design-checked) validating real completion outputs; bash sandbox with canaries", "6 (C15)"),
+ "C17": ("translation_validation", "Derive.tla states the documented derive rules as a function from a type definition to the definition of the hand-written equivalent (TLC checks it is total and well-formed on the family and prints the result); a generated crate contains the #[derive(Bpaf)] types; for every type TLC enumerates all lines up to the bound for the derived definition (CmdLine/GroupLine) and the derived parser, the hand-written parser built from that definition and the specification's outcome must agree on value, failure class and help/error text.",
+         "TLA+ derive rules (Derive.tla) evaluated by TLC; differential run derived vs hand-written vs TLA+ outcome on TLC-enumerated lines", "6 (C17)"),
 }
 NOTE = "Bounded: exhaustive within the stated constants, sampled beyond; trusted: TLC, the JSON reader, the dynamic builder (public bpaf API only)."
 
@@ -54,7 +56,7 @@ def main():
                    "baseline_off_cmd": "cd /repo && cargo nextest run --workspace --no-fail-fast --test-threads 8 --offline",
                    "source_commits": hook_commits, "add_only": True},
          "engines": [
-             {"name": "cmdline", "path": "tla/CmdLine.tla", "serves_properties": sorted(set(CHECKS) - {"C07", "C19", "C11", "C12", "C16", "C13", "C15"}),
+             {"name": "cmdline", "path": "tla/CmdLine.tla", "serves_properties": sorted(set(CHECKS) - {"C07", "C19", "C11", "C12", "C16", "C13", "C15", "C17"}),
               "kind_free_text": "TLA+ left-to-right acceptor with denotation; TLC design/replay/trace configurations; Rust harness building real bpaf parsers from the same JSON definitions"},
              {"name": "docs", "path": "tla/HelpModel.tla", "serves_properties": ["C12", "C16"],
               "kind_free_text": "Listing model of help/documentation (HelpModel.tla) and markup acceptors (Markup.tla); the harness renders and lexes, TLC judges"},
@@ -62,6 +64,8 @@ def main():
               "kind_free_text": "acceptor of wrapped console output (Wrap.tla) with a design model (WrapDesign.tla)"},
              {"name": "shell", "path": "tla/ShellWords.tla", "serves_properties": ["C15"],
               "kind_free_text": "shell word lexer and directive templates (ShellWords.tla), quoting design model (ShellDesign.tla), trace judge (ShellTrace.tla)"},
+             {"name": "derive", "path": "tla/Derive.tla", "serves_properties": ["C17"],
+              "kind_free_text": "derive rules as a TLA+ function; generated crate derive_cases with the derived types; differential runner"},
              {"name": "process", "path": "tla/Process.tla", "serves_properties": ["C11"],
               "kind_free_text": "TLA+ protocol of a process built around OptionParser::run(); ProcessTrace validates recorded runs of harness-app"},
              {"name": "groupline", "path": "tla/GroupLine.tla", "serves_properties": ["C07", "C19"],
@@ -76,7 +80,7 @@ def main():
                                 "thorough_cmd": f"bin/check {pid} --tier thorough",
                                 "evidence_file": f"/verif/evidence/{pid}.json",
                                 "replay_cmd_template": f"bin/check {pid} --replay {{path}}",
-                                "engine": "groupline" if pid in ("C07", "C19") else "process" if pid == "C11" else "docs" if pid in ("C12", "C16") else "wrap" if pid == "C13" else "shell" if pid == "C15" else "cmdline",
+                                "engine": "groupline" if pid in ("C07", "C19") else "process" if pid == "C11" else "docs" if pid in ("C12", "C16") else "wrap" if pid == "C13" else "shell" if pid == "C15" else "derive" if pid == "C17" else "cmdline",
                                 "level_claimed": {"category": lvl, "text": text, "design_ref": f"DESIGN.md section {ref}"},
                                 "level_note": NOTE, "technique": tech})
         else:
